@@ -236,6 +236,9 @@ def check(pid, tier, seed, only=None, workers=None, verbose=False):
         extra.update(r.get("extra") or {})
         if r["status"] != "ok":
             inconclusive.append(f"{j['name']}: {r['error']}")
+        if r["stats"].get("truncated"):
+            inconclusive.append(f"{j['name']}: {r['stats']['truncated']} path(s) abandoned at an unwinding bound of the string proxies "
+                                f"(the code loops over an unbounded number of separator occurrences)")
         for v in r["violations"]:
             violations.append((j, v))
         for v in r["nonrepro"]:
